@@ -5,10 +5,13 @@ package command
 import (
 	"context"
 	"fmt"
+	"io"
 	"math/rand"
 	"net"
+	"os"
 	"strings"
 	"sync"
+	"syscall"
 	"testing"
 	"time"
 
@@ -196,12 +199,35 @@ type c01AppCase struct {
 	Stdin    bool      `json:"file_from_stdin"`
 	Workers  int       `json:"workers"`
 	Seed     int64     `json:"rand_seed"`
+	// a third of the probes fail the way real probes fail: timeouts (context deadline), refused, reset, EOF
+	Faults bool `json:"failing_probes,omitempty"`
 }
 
 type c01Recorder struct {
-	mu  sync.Mutex
-	got map[gram.Probe]int
-	bad []string
+	mu     sync.Mutex
+	got    map[gram.Probe]int
+	bad    []string
+	faults bool
+	failed int
+}
+
+func c01ProbeFault(ip uint32, port uint16) error {
+	h := (ip*2654435761 + uint32(port)*40503) >> 7
+	if h%3 != 0 {
+		return nil
+	}
+	where := fmt.Sprintf("verif probe fault %s:%d", gram.U32String(ip), port)
+	switch h / 3 % 5 {
+	case 0:
+		return fmt.Errorf("%s: %w", where, context.DeadlineExceeded)
+	case 1:
+		return &net.OpError{Op: "dial", Net: "tcp", Err: fmt.Errorf("%s: %w", where, os.ErrDeadlineExceeded)}
+	case 2:
+		return fmt.Errorf("%s: %w", where, syscall.ECONNREFUSED)
+	case 3:
+		return fmt.Errorf("%s: %w", where, io.EOF)
+	}
+	return fmt.Errorf("%s: %w", where, context.Canceled)
 }
 
 func (r *c01Recorder) Scan(ctx context.Context, req *scan.Request) (scan.Result, error) {
@@ -213,6 +239,12 @@ func (r *c01Recorder) Scan(ctx context.Context, req *scan.Request) (scan.Result,
 		return nil, nil
 	}
 	r.got[gram.Probe{IP: gram.BytesU32(ip4), Port: req.DstPort}]++
+	if r.faults {
+		if err := c01ProbeFault(gram.BytesU32(ip4), req.DstPort); err != nil {
+			r.failed++
+			return nil, err
+		}
+	}
 	return nil, nil
 }
 
@@ -306,7 +338,10 @@ func c01AppCheck(c c01AppCase) *kit.Verdict {
 	if s.CIDR != "" {
 		args = append(args, s.CIDR)
 	}
-	rec := &c01Recorder{got: map[gram.Probe]int{}}
+	rec := &c01Recorder{got: map[gram.Probe]int{}, faults: c.Faults}
+	if c.Faults {
+		v.Label("failing-probes")
+	}
 	var runErr error
 	run := func() {
 		opts, rest, err := appCmdOpts(c.Cmd, args)
@@ -339,8 +374,16 @@ func c01AppCheck(c c01AppCase) *kit.Verdict {
 			return
 		}
 		<-ed
-		if len(errs) > 0 {
-			runErr = fmt.Errorf("valid specification but errors: %v", errs[:1])
+		nfault := 0
+		for _, e := range errs {
+			if !strings.Contains(e, "verif probe fault") {
+				runErr = fmt.Errorf("valid specification but error: %v", e)
+				return
+			}
+			nfault++
+		}
+		if nfault != rec.failed {
+			runErr = fmt.Errorf("%d probes failed, %d errors came out of the engine", rec.failed, nfault)
 		}
 	}
 	if stdin != nil {
@@ -365,7 +408,7 @@ func TestC01AppScans(t *testing.T) {
 	budget := kit.EnvInt("C01_BUDGET", 4000)
 	kit.Run(t, kit.Spec[c01AppCase]{
 		Prop: "C01",
-		Rule: "socks / docker / elastic: argv parsed by the command's own cobra flag set and parseRawOptions/parseScanRange, engine built by genericScanCmdOpts.newScanEngine with a recording Scanner; same specification generator as TestC01Commands (CIDR x ranges, pairs file, addresses x ports from file or stdin, --exclude), workers 1..300. Oracle: multiset of Scan calls = denotation. non-trivial as TestC01Commands; distinct by case",
+		Rule: "socks / docker / elastic: argv parsed by the command's own cobra flag set and parseRawOptions/parseScanRange, engine built by genericScanCmdOpts.newScanEngine with a recording Scanner; same specification generator as TestC01Commands (CIDR x ranges, pairs file, addresses x ports from file or stdin, --exclude), workers 1..300; in a third of the cases a third of the probes fail as real probes do (context deadline exceeded, dial timeout, refused, EOF, cancelled). Oracle: multiset of Scan calls = denotation (failing probes included) and one engine error per failed probe. non-trivial as TestC01Commands; distinct by case",
 		Gen: func(t *rapid.T) c01AppCase {
 			c := c01AppCase{Cmd: rapid.SampledFrom([]string{"socks", "docker", "elastic"}).Draw(t, "cmd"), Seed: rapid.Int64().Draw(t, "seed")}
 			c.Spec = genSpec(t, false, true, budget)
@@ -374,6 +417,7 @@ func TestC01AppScans(t *testing.T) {
 				c.Stdin = rapid.Bool().Draw(t, "stdin")
 			}
 			c.Workers = rapid.SampledFrom([]int{1, 2, 100, 300}).Draw(t, "workers")
+			c.Faults = rapid.IntRange(0, 2).Draw(t, "faults") == 0
 			return c
 		},
 		Check: c01AppCheck,
